@@ -17,7 +17,7 @@ CHECKS = {
          "Assumes std RandomState draws a fresh key per process and per HashSet/HashMap instance (true for the pinned toolchain). Process launches are capped by the sandbox's launch rate (about 100/s).",
          "DESIGN.md section 4, C13"),
  "C14": ("runtime monitor: panic capture and Err-nonempty checks around each library stage in isolated workers + process-boundary contract monitor of `gram check`",
-         "Held on every execution observed: all byte strings <=2 bytes, all token sequences <=4 (quick) / <=5 (thorough) tokens, random bytes incl. invalid UTF-8, token soups, every single-token mutant and truncation of the corpus, nesting families to depth 200, generated programs and their perturbations with rendered diagnostics, every operator on every pair of 23 operands (machine-integer edges, 200-bit values) deciding a type; no stage panicked, no Err was empty, parse stayed under its logical work cap, and `gram check` kept its exit-status/stdout/stderr contract on the subset sent through the real binary.",
+         "Held on every execution observed: all byte strings <=2 bytes, all token sequences <=4 (quick) / <=5 (thorough) tokens, random bytes incl. invalid UTF-8, token soups, every single-token mutant and truncation of the corpus, nesting families to depth 200, generated programs and their perturbations with rendered diagnostics, every operator on every pair of 27 operands (machine-integer edges, 200-bit values) deciding a type; no stage panicked, no Err was empty, parse stayed under its logical work cap, and `gram check` kept its exit-status/stdout/stderr contract on the subset sent through the real binary.",
          "Library stages are observed in the harness build of gram's sources (checked arithmetic); wall-clock timeouts and stack exhaustion at the process boundary are inconclusive, never violations; an in-process worker death while tokenizing or parsing, or during type checking of a program the reference accepts, is a violation.",
          "DESIGN.md section 4, C14"),
  "C17": ("runtime monitor: logical work counters (parse-function, definition-order-check and post-parse-pass invocations, hooks, with abort cap) and guest instruction counts under valgrind cachegrind, over parameterised input families",
@@ -45,7 +45,7 @@ CHECKS = {
          "Two independent expectations (R-core, generator). Syntactic rejections of a printed program are not this property's subject and are counted as inconclusive (0 observed).",
          "DESIGN.md section 4, C05"),
  "C06": ("runtime monitor: evaluator trace from the harness's step loop versus normalize_weak_head/unify; symmetry; agreement with reference normal forms",
-         "Held on every execution observed: unify(t,t); unify(t, t') in both directions where t' is t with subterms behind already solved holes (shift 0-3), and whnf(t') = the evaluated literal; unify(t, reduct) in both directions for the first 30 reducts; whnf of ground programs equals the evaluated literal (generated programs and every operator on every pair of 23 operands incl. the machine-integer edges); unify(a,b)=unify(b,a)=equality of R-core normal forms on pairs of same-typed hole-free terms.",
+         "Held on every execution observed: unify(t,t); unify(t, t') in both directions where t' is t with subterms behind already solved holes (shift 0-3), and whnf(t') = the evaluated literal; unify(t, reduct) in both directions for the first 30 reducts; whnf of ground programs equals the evaluated literal (generated programs and every operator on every pair of 27 operands incl. the machine-integer edges); unify(a,b)=unify(b,a)=equality of R-core normal forms on pairs of same-typed hole-free terms.",
          "Hole-free terms only; non-normalising pairs are skipped by construction or inconclusive on the watchdog.",
          "DESIGN.md section 4, C06"),
  "C07": ("runtime monitor: differential against an independent chart parser that reads grammar.y at run time (accept/reject, derivation count, left-associated tree)",
@@ -61,7 +61,7 @@ CHECKS = {
          "Hole-free terms only, as the property states.",
          "DESIGN.md section 4, C11"),
  "C12": ("runtime monitor: inspection of hole cells after unify() on constructed (pattern, instance) pairs: cycles, scope of solutions, reference conversion of the filled-in terms",
-         "Held on every execution observed: after every successful unification no cell is reachable from its own content, every solution is closed with respect to the scope its hole was written in, and the two terms with solutions filled in are convertible for R-core (pairs: punched terms against the original / beta-expanded / definition-wrapped term, parts of either side optionally behind already solved holes; unrelated terms; a term against a structurally edited well-typed copy; 35 hand-made configurations); failures of the last kind on pairs whose unification passed an unresolved hole through open/signed_shift are the recorded finding.",
+         "Held on every execution observed: after every successful unification no cell is reachable from its own content, every solution is closed with respect to the scope its hole was written in, and the two terms with solutions filled in are convertible for R-core (pairs: punched terms against the original / beta-expanded / definition-wrapped term, parts of either side optionally behind already solved holes; unrelated terms; a term against a structurally edited well-typed copy; 39 hand-made configurations); failures of the last kind on pairs whose unification passed an unresolved hole through open/signed_shift are the recorded finding.",
          "Only successes are judged. Base terms are generated without recursive definitions (unify legitimately diverges on them once a hole defeats the syntactic shortcut).",
          "DESIGN.md section 4, C12"),
  "C15": ("runtime monitor: specification listing (R-listing) differential, fault injection with spans known from the printer, range => re-parse round trip of every node",
